@@ -6,6 +6,7 @@ from .. import inputs
 from . import geom
 
 SPEC = dict(
+    technique='Lean 4 proof (q2r homomorphism, double cover, embeddings, class delegation; regenerated model) + float monitor of the converse maps',
     lean_modules=['SmVerif.Props.C04', 'SmVerif.Props.Delegation'],
     groups=['Quaternions', 'Quats', 'Poses'],
     expected_untranslatable=('UQ_interp', 'UQ_interp_shortest'),
